@@ -2,14 +2,14 @@
 C04 — concurrent clients: every interleaving is equivalent to a serial order.  Property theorems.
 
 Scope of the theorems: TWO concurrent RPCs on one study drawn from the RPCs whose datastore calls
-all sit inside the study lock (CompleteTrial, AddTrialMeasurement, StopTrial, CreateTrial,
+all sit inside the study lock (CompleteTrial, AddTrialMeasurement, StopTrial, CreateTrial, DeleteTrial,
 UpdateMetadata, SetStudyState) — `c04_shape_study_lock_rpcs` checks that on the current source.
 Granularity: the unguarded study check and the critical section.  That a critical section may be
 treated as ONE atomic event is itself proved for the fine-grained semantics
 (`c04_lock_gives_atomic_sections`: two threads `acquire; op₁ … opₙ; release` with arbitrary
 operations, every schedule the lock admits ends in one of the two serial results); what stays
 trusted is that `threading.Lock` provides mutual exclusion and that one datastore call is atomic.  Initial state, arguments: arbitrary.  SuggestTrials,
-CheckTrialEarlyStoppingState, DeleteTrial, DeleteStudy, CreateStudy pairs are decided by the exhaustive
+CheckTrialEarlyStoppingState, DeleteStudy, CreateStudy pairs are decided by the exhaustive
 schedule exploration on the real code only (stated as partial).  For MORE than two clients the lock-level
 statement is proved for any number of threads (`c04_lock_gives_atomic_sections_n`: the result is the
 serial execution of the sections in the order the lock was acquired); the unguarded study check in front
@@ -27,6 +27,7 @@ inductive StudyRpc where
   | measure (id : Nat) (m : Meas)
   | stop (id : Nat)
   | create (t : Trial)
+  | delete (id : Nat)
   | metadata (us : List (Meta.Upd K String))
   | setState (s : SState)
 
@@ -35,6 +36,7 @@ def StudyRpc.crit (cfg : Cfg) : StudyRpc → Crit
   | .measure id m => critMeasure id m
   | .stop id => critStop id
   | .create t => critCreate t
+  | .delete id => critDelete id
   | .metadata us => critMetadata cfg us
   | .setState s => critSetState s
 
@@ -44,6 +46,7 @@ theorem stateIndep_of (cfg : Cfg) (x : StudyRpc) (h : ∀ s, x ≠ .setState s) 
   | measure id m => exact stateIndep_measure id m
   | stop id => exact stateIndep_stop id
   | create t => exact stateIndep_create t
+  | delete id => exact stateIndep_delete id
   | metadata us => exact stateIndep_metadata cfg us
   | setState s => exact absurd rfl (h s)
 
